@@ -4,10 +4,12 @@
    handler: they range over all script pairs and all schedules of the rendezvous fragment [wf]
    (every send meets a ready receiver, nothing is in flight when the client cancels).
    [wrap_run fx_now] is the model of pkg/wrap as it is now, [grpc_run] the reference behaviour of a
-   real connection (validated against bufconn on every run).  Two classes of scenarios on which the
-   two differ are recorded as known findings ([known_class]); on everything else they are equal. *)
+   real connection (validated against bufconn on every run; the behaviours it assumes are the named
+   facts of Wrap/GrpcFacts.v).  Two classes of scenarios on which the two differ are recorded as known
+   findings ([known_class] 1 and 2); on everything else they are equal. *)
 From SC Require Import Base.Prelude Wrap.Stream Wrap.GrpcSpec Wrap.C13Judge Wrap.Copy Wrap.StreamProofs.
 From SC Require Import Wrap.Sites Gen.WrapSites Wrap.SitesProofs.
+From SC Require Import Wrap.GrpcFacts Gen.GrpcFacts Wrap.GrpcFactsProofs.
 
 (* Same client transcript (messages in order, terminal outcome with status code and message,
    header and trailer metadata, results of sends) and same handler-side transcript, for every
@@ -104,8 +106,9 @@ Print Assumptions C13_every_boundary_site_copies.
 
 (* the switchable repairs of the model are set as the source has them: Close latches pending headers
    under a test of the context, SetHeader tests the latch before joining, doneErr can return ctx.Err(),
-   the server's SendMsg leaves on a finished context before latching; Close assigns closeErr before
-   closing anything (facts regenerated from stream.go on every run) *)
+   the server's SendMsg and SendHeader leave on a finished context before latching, the client's CloseSend
+   closes clientSend under a flag its SendMsg tests first; Close assigns closeErr before closing
+   anything (facts regenerated from stream.go on every run) *)
 Theorem C13_model_repairs_match_source :
   fx_now = wrap_fixes /\ wrap_close_err_first = true /\ wrap_order_problems = [].
 Proof. exact fixes_generated. Qed.
@@ -146,6 +149,42 @@ Theorem C13_judge_sound : forall sc,
 Proof. exact judge_sound. Qed.
 Print Assumptions C13_judge_sound.
 
+(* ---- the reference model: what it assumes about a real connection, by name ---- *)
+
+(* Tie of GrpcSpec to grpc-go (not a proof about grpc-go: an obligation over a generated table plus an
+   observation on every run).  For every named assumption of GrpcSpec (GrpcFacts.grpc_assumed) the table of
+   directed scenarios (Gen/GrpcFacts.v, regenerated from harness/c13/facts.go on every run) has an entry;
+   for every entry GrpcSpec computes exactly the transcript written down by hand as what a real connection
+   gives; every entry lies in the fragment [wf].  Each entry is run against a grpc.Server on bufconn on
+   every run (case KFact: observed = expected). *)
+Theorem C13_grpc_fact_table_matches_spec :
+  forallb (fun f => transcript_eqb (grpc_run (gf_scn f)) (gf_expect f)) grpc_fact_table = true /\
+  forallb (fun f => wf (gf_scn f)) grpc_fact_table = true /\
+  forallb (has_fact grpc_fact_table) grpc_assumed = true /\
+  map gf_id grpc_fact_table = map Z.of_nat (seq 1 (List.length grpc_fact_table)).
+Proof.
+  split; [exact fact_table_matches_spec | split; [exact fact_table_in_fragment | exact fact_table_complete]].
+Qed.
+Print Assumptions C13_grpc_fact_table_matches_spec.
+
+(* The general form of the assumptions about the header block and about the end of the client's context, for
+   every state of the reference model (the remaining ones are the lemmas of the same names in
+   Wrap/GrpcFactsProofs.v): once the block has left SetHeader with metadata fails and changes nothing; once the
+   call is over for the client no handler action changes what the client sees; the final Header() of a stream
+   client then shows the block that had left, the trailer is empty. *)
+Theorem C13_grpc_assumptions_general :
+  (forall sh g h, g_over g = false -> g_sent g = true -> md_empty h = false ->
+     g_step sh g (SetH h) = (g, ([], [SSetH false]))) /\
+  (forall sh g st, g_over g = true ->
+     match st with SetH _ | SendH _ | SetT _ | S2C _ | RecvEOF => True | _ => False end ->
+     fst (g_step sh g st) = g /\ fst (snd (g_step sh g st)) = []) /\
+  (forall sh g rt, g_over g = true -> is_invoke sh = false ->
+     fst (snd (g_step sh g (Ret rt))) = [CHdr (canon_md (if g_sent g then g_chdr g else [])); CTrl []]).
+Proof.
+  split; [exact setheader_after_block_fails_and_is_dropped |
+  split; [exact handler_actions_after_the_end_reach_nobody | exact headers_received_before_the_end_stay_visible]].
+Qed.
+
 (* ---- the code as it was: each repair is needed ---- *)
 
 Definition differs (fx : fixes) (sc : scenario) : Prop :=
@@ -153,23 +192,24 @@ Definition differs (fx : fixes) (sc : scenario) : Prop :=
 
 (* before 265f37f: a header set but not sent is lost when the handler returns *)
 Theorem C13_header_on_return_v0_refuted :
-  differs (mkFx false true true true) (mkScn Unary 5 [] CtxLive [SetH [(0, 1)]; Ret (RetStatus 5 3)]).
+  differs (mkFx false true true true true true) (mkScn Unary 5 [] CtxLive [SetH [(0, 1)]; Ret (RetStatus 5 3)]).
 Proof. repeat split; try reflexivity. vm_compute. discriminate. Qed.
 
 (* before c5fbe0f: SetHeader after the first message is accepted and shown to the client *)
 Theorem C13_late_set_header_v0_refuted :
-  differs (mkFx true false true true)
+  differs (mkFx true false true true true true)
           (mkScn ServerStream 2 [] CtxLive [S2C 1; SetH [(0, 1)]; CHeader; Ret (RetOk 0)]).
 Proof. repeat split; try reflexivity. vm_compute. discriminate. Qed.
 
 (* before 7bd1900: Invoke on a cancelled context returns io.EOF *)
 Theorem C13_context_error_v0_refuted :
-  differs (mkFx true true false true) (mkScn Unary 5 [] CtxCanceled []).
+  differs (mkFx true true false true true true) (mkScn Unary 5 [] CtxCanceled []).
 Proof. repeat split; try reflexivity. vm_compute. discriminate. Qed.
 
-(* before 4e39ea2: a unary handler answering after the cancel publishes its pending headers *)
+(* before 4e39ea2: a unary handler answering after the cancel publishes its pending headers (SendMsg
+   latched them through SendHeader, which did not look at the context either) *)
 Theorem C13_send_after_cancel_v0_refuted :
-  differs (mkFx true true true false) (mkScn UnaryAsStream 56 [] CtxLive [SetH [(0, 1)]; Cancel false]).
+  differs (mkFx true true true false false true) (mkScn UnaryAsStream 56 [] CtxLive [SetH [(0, 1)]; Cancel false]).
 Proof. repeat split; try reflexivity. vm_compute. discriminate. Qed.
 
 Theorem C13_wrapper_equals_grpc_v0_refuted : exists sc, differs fx_v0 sc.
@@ -194,18 +234,36 @@ Proof.
   repeat split; try reflexivity. vm_compute. discriminate.
 Qed.
 
-(* class 4: the handler sends headers after the client's context has ended (none sent before): the
-   wrapper's Header() shows them afterwards, a real connection delivers nothing to a finished call *)
-Theorem C13_header_after_context_end_refuted : exists sc,
-  wf sc = true /\ known_class sc = Some 4 /\ wrap_run fx_now sc <> grpc_run sc.
-Proof.
-  exists (mkScn Bidi 0 [] CtxLive [CtxEnd false; SendH [(0, 7)]; Ret (RetOk 0)]).
-  repeat split; try reflexivity. vm_compute. discriminate.
-Qed.
+(* ---- the two classes repaired last ---- *)
 
-(* class 3 (outside every scenario): SendMsg after CloseSend and a second CloseSend panic in the
-   wrapper; a real connection answers with an Internal error and with nil *)
-Theorem C13_client_misuse_refuted : forall k, w_misuse k <> g_misuse k.
+(* former class 4, before the SendHeader repair: the handler sends headers after the client's context has
+   ended (none sent before): the wrapper's Header() showed them afterwards, a real connection delivers
+   nothing to a finished call.  Now covered by C13_wrapper_equals_grpc (no guard excludes it). *)
+Theorem C13_header_after_context_end_v0_refuted :
+  differs (mkFx true true true true false true)
+          (mkScn Bidi 0 [] CtxLive [CtxEnd false; SendH [(0, 7)]; Ret (RetOk 0)]).
+Proof. repeat split; try reflexivity. vm_compute. discriminate. Qed.
+
+(* whatever a handler sets or sends as headers after the client's context has ended (any mix of SetHeader /
+   SendHeader / SetTrailer-with-nothing / failing sends and receives, any return), the client's view is the
+   one of a real connection: an instance of the main theorem, stated for the scenarios of former class 4 *)
+Theorem C13_header_after_context_end_equal : forall sc,
+  wf sc = true -> no_known sc = true -> k4_steps false (steps sc) = true ->
+  wrap_run fx_now sc = grpc_run sc.
+Proof. intros sc Hwf Hnk _. exact (wrapper_equals_grpc sc Hwf Hnk). Qed.
+
+Example C13_nonvacuous_header_after_context_end :
+  let sc := mkScn Bidi 0 [] CtxLive [SetH [(1, 2)]; CtxEnd true; SendH [(0, 7)]; SetH [(2, 3)]; Ret (RetStatus 5 1)] in
+  wf sc = true /\ no_known sc = true /\ k4_steps false (steps sc) = true /\
+  fst (wrap_run fx_now sc) = [CEnd ODeadline; CHdr []; CTrl []].
+Proof. repeat split; reflexivity. Qed.
+
+(* former class 3 (client misuse, outside every scenario): SendMsg after CloseSend and a second CloseSend
+   panicked in the wrapper; a real connection answers with an Internal error and with nil -- and so does the
+   wrapper now (the call is not aborted as grpc-go's finish does: what follows the misuse is not judged) *)
+Theorem C13_client_misuse_equal : forall k, w_misuse fx_now k = g_misuse k.
+Proof. destruct k; reflexivity. Qed.
+Theorem C13_client_misuse_v0_refuted : forall k, w_misuse (mkFx true true true true true false) k <> g_misuse k.
 Proof. destruct k; discriminate. Qed.
 
 (* ---- non-vacuity ---- *)
@@ -227,7 +285,7 @@ Example C13_nonvacuous_after_context_end :
   wf sc = true /\ no_known sc = true /\
   wrap_run fx_now sc =
   ([CSent true; CEnd ODeadline; CHdr []; CTrl []],
-   [SEntered (-1); SIncoming []; SGot 4; SSetH true; SDone true]).
+   [SEntered (-1); SIncoming []; SGot 4; SSetH true; SDone true; SSent false; SRecvErr]).
 Proof. repeat split; reflexivity. Qed.
 
 (* a call made on a context whose deadline has already passed *)
